@@ -1,6 +1,6 @@
 (* ParProofs.v -- proofs about the model Par.v (property C13). stdlib only, no axioms. *)
 From P7 Require Import Prelude Par.
-From Coq Require Import Arith PeanoNat Lia.
+From Coq Require Import Arith PeanoNat Lia DecimalNat.
 Local Open Scope nat_scope.
 
 (* ------------------------------------------------------------------ lists *)
@@ -16,6 +16,15 @@ Qed.
 Lemma nth_error_set_nth_neq {A} : forall (l : list A) i j x, i <> j -> nth_error (set_nth i x l) j = nth_error l j.
 Proof.
   induction l as [|y r IH]; intros [|i] [|j] x Hne; simpl; auto; try congruence.
+Qed.
+
+Lemma NoDup_app_snoc {A} : forall (l : list A) x, NoDup l -> ~ In x l -> NoDup (l ++ [x]).
+Proof.
+  induction l as [|y r IH]; intros x Hnd Hni; simpl.
+  - constructor; auto.
+  - inversion Hnd as [|y' r' Hy Hr]; subst. constructor.
+    + intros Hin. apply in_app_or in Hin. destruct Hin as [Hin|[Heq|[]]]; auto. subst. apply Hni. left. reflexivity.
+    + apply IH; auto. intros H. apply Hni. right. exact H.
 Qed.
 
 Lemma run_app : forall a b s, run (a ++ b) s = run b (run a s).
@@ -647,20 +656,142 @@ Proof.
 Qed.
 
 (* ------------------------------------------------------------------ output names *)
-Lemma outnames_from_nodup : forall names seen,
-  (forall n, In n names -> ~ In n seen) -> NoDup names -> outnames_from seen names = names.
+Lemma uint_bytes_inj : forall u v, uint_bytes u = uint_bytes v -> u = v.
 Proof.
-  induction names as [|n r IH]; intros seen Hfresh Hnd; [reflexivity|].
-  simpl. inversion Hnd as [|n' r' Hnotin Hnd']; subst.
-  assert (Hc : count_occ bytes_eq_dec seen n = 0).
-  { apply count_occ_not_In. apply Hfresh. left. reflexivity. }
-  rewrite Hc. f_equal. apply IH; auto.
-  intros m Hm [Heq|Hin]; [subst m; contradiction | apply (Hfresh m); [right; exact Hm | exact Hin]].
+  induction u as [|u IH|u IH|u IH|u IH|u IH|u IH|u IH|u IH|u IH|u IH]; intros v H;
+    destruct v; simpl in H; try discriminate; try reflexivity;
+    inversion H as [H']; f_equal; apply IH; exact H'.
 Qed.
 
+Lemma dec_inj : forall a b, dec a = dec b -> a = b.
+Proof.
+  intros a b H. apply uint_bytes_inj in H.
+  rewrite <- (DecimalNat.Unsigned.of_to a), <- (DecimalNat.Unsigned.of_to b), H. reflexivity.
+Qed.
+
+Lemma cand_inj : forall n a b, cand n a = cand n b -> a = b.
+Proof. intros n a b H. unfold cand in H. apply app_inv_head in H. apply app_inv_head in H. apply dec_inj. exact H. Qed.
+
+Lemma cand_not_self : forall n c, cand n c <> n.
+Proof.
+  intros n c H. apply (f_equal (@length Z)) in H. unfold cand in H. rewrite !app_length in H. simpl in H. lia.
+Qed.
+
+Definition keys (d : fdict) : list bytes := map fst d.
+
+Lemma fget_none : forall d n, fget d n = None <-> ~ In n (keys d).
+Proof.
+  induction d as [|[k v] r IH]; intros n; simpl.
+  - tauto.
+  - destruct (bytes_eq_dec k n) as [->|Hne].
+    + split; [discriminate | intros H; exfalso; apply H; auto].
+    + rewrite IH. split; [intros H [Hk|Hin]; auto | intros H Hin; apply H; auto].
+Qed.
+
+Lemma keys_fset_in : forall d n v, In n (keys d) -> keys (fset d n v) = keys d.
+Proof.
+  induction d as [|[k w] r IH]; intros n v Hin; simpl in *; [contradiction|].
+  destruct (bytes_eq_dec k n) as [->|Hne]; simpl; auto.
+  f_equal. apply IH. destruct Hin; [contradiction | auto].
+Qed.
+
+Lemma keys_fset_new : forall d n v, ~ In n (keys d) -> keys (fset d n v) = keys d ++ [n].
+Proof.
+  induction d as [|[k w] r IH]; intros n v Hni; simpl in *; auto.
+  destruct (bytes_eq_dec k n) as [->|Hne]; [exfalso; apply Hni; auto|].
+  simpl. f_equal. apply IH. intros H; apply Hni; auto.
+Qed.
+
+Lemma fget_fset_same : forall d n v, fget (fset d n v) n = Some v.
+Proof.
+  induction d as [|[k w] r IH]; intros n v; simpl.
+  - destruct (bytes_eq_dec n n); congruence.
+  - destruct (bytes_eq_dec k n) as [->|Hne]; simpl.
+    + destruct (bytes_eq_dec n n); congruence.
+    + destruct (bytes_eq_dec k n); [contradiction | apply IH].
+Qed.
+
+(* the loop never changes the set of keys, and what it returns is not one of them: the candidates tested are
+   pairwise different (decimal printing is injective), so |fnames|+1 tests cannot all hit *)
+Lemma rename_loop_gen : forall fuel d n out tested,
+  (out = n \/ In n (keys d)) ->
+  NoDup tested -> incl tested (keys d) -> ~ In out tested ->
+  (forall c, cnt d n <= c -> ~ In (cand n c) tested /\ out <> cand n c) ->
+  length (keys d) < length tested + fuel ->
+  keys (snd (rename_loop fuel d n out)) = keys d /\ ~ In (fst (rename_loop fuel d n out)) (keys d).
+Proof.
+  induction fuel as [|f IH]; intros d n out tested Hn Hnd Hincl Hout Hfut Hlen.
+  - exfalso. pose proof (NoDup_incl_length Hnd Hincl). lia.
+  - simpl. destruct (fget d out) as [v|] eqn:E.
+    + assert (Hin : In out (keys d)).
+      { destruct (in_dec bytes_eq_dec out (keys d)) as [H|H]; auto. apply fget_none in H. congruence. }
+      assert (Hnk : In n (keys d)) by (destruct Hn as [->|H]; auto).
+      pose proof (keys_fset_in d n (S (cnt d n)) Hnk) as Hk.
+      assert (Hc : cnt (fset d n (S (cnt d n))) n = S (cnt d n)).
+      { unfold cnt at 1. rewrite fget_fset_same. reflexivity. }
+      destruct (IH (fset d n (S (cnt d n))) n (cand n (cnt d n)) (out :: tested)) as (K1 & K2).
+      * right. rewrite Hk. exact Hnk.
+      * constructor; auto.
+      * rewrite Hk. intros x [<-|Hx]; auto.
+      * intros [Heq|Hx].
+        -- destruct (Hfut (cnt d n) (le_n _)) as (_ & H). auto.
+        -- destruct (Hfut (cnt d n) (le_n _)) as (H & _). auto.
+      * intros c Hle. rewrite Hc in Hle. destruct (Hfut c) as (H1 & H2); [lia|]. split.
+        -- intros [Heq|Hx]; auto.
+        -- intros Heq. apply cand_inj in Heq. lia.
+      * rewrite Hk. simpl. lia.
+      * rewrite Hk in K1, K2. auto.
+    + simpl. split; auto. apply fget_none. exact E.
+Qed.
+
+Lemma rename_loop_fresh : forall d n,
+  keys (snd (rename_loop (S (length d)) d n n)) = keys d /\
+  ~ In (fst (rename_loop (S (length d)) d n n)) (keys d).
+Proof.
+  intros d n. apply (rename_loop_gen (S (length d)) d n n []); auto.
+  - constructor.
+  - intros x [].
+  - intros c _. split; auto. intros H. symmetry in H. apply (cand_not_self n c H).
+  - unfold keys. rewrite map_length. simpl. lia.
+Qed.
+
+Lemma outnames_from_fresh : forall names d, NoDup (keys d) ->
+  NoDup (outnames_from d names) /\ forall o, In o (outnames_from d names) -> ~ In o (keys d).
+Proof.
+  induction names as [|n r IH]; intros d Hnd; simpl.
+  - split; [constructor | intros o []].
+  - destruct (rename_loop_fresh d n) as (Hk & Hfresh).
+    set (od := rename_loop (S (length d)) d n n) in *.
+    assert (Hk2 : keys (fset (snd od) (fst od) 0) = keys d ++ [fst od]).
+    { rewrite keys_fset_new; rewrite Hk; auto. }
+    destruct (IH (fset (snd od) (fst od) 0)) as (Hnd' & Hout').
+    { rewrite Hk2. apply NoDup_app_snoc; auto. }
+    split.
+    + constructor; auto. intros Hin. apply (Hout' _ Hin). rewrite Hk2. apply in_or_app. right. left. reflexivity.
+    + intros o [<-|Hin]; auto. intros Hd. apply (Hout' _ Hin). rewrite Hk2. apply in_or_app. auto.
+Qed.
+
+(* every member gets an output name of its own, whatever the member names are *)
+Theorem outnames_nodup_thm : forall names, NoDup (outnames names).
+Proof. intros names. apply (outnames_from_fresh names []). constructor. Qed.
+
+Lemma outnames_from_id : forall names d,
+  (forall n, In n names -> ~ In n (keys d)) -> NoDup names -> outnames_from d names = names.
+Proof.
+  induction names as [|n r IH]; intros d Hfresh Hnd; [reflexivity|].
+  inversion Hnd as [|n' r' Hnotin Hnd']; subst.
+  assert (E : fget d n = None) by (apply fget_none; apply Hfresh; left; reflexivity).
+  simpl. rewrite E. simpl. f_equal. apply IH; auto.
+  intros m Hm. rewrite keys_fset_new by (apply Hfresh; left; reflexivity).
+  intros Hin. apply in_app_or in Hin. destruct Hin as [Hin|[Heq|[]]].
+  - apply (Hfresh m); [right; exact Hm | exact Hin].
+  - subst m. contradiction.
+Qed.
+
+(* pairwise distinct member names are kept as they are *)
 Theorem outnames_distinct_thm : forall names, NoDup names -> outnames names = names /\ NoDup (outnames names).
 Proof.
-  intros names Hnd. assert (H : outnames names = names) by (apply outnames_from_nodup; auto).
+  intros names Hnd. assert (H : outnames names = names) by (apply outnames_from_id; auto).
   split; auto. rewrite H. exact Hnd.
 Qed.
 
@@ -893,8 +1024,9 @@ Example processes_post_pass_error :
   snd (extract MThreads TFile (seq_sched w_damaged_mid) none_map [] w_damaged_mid) = Err ECrc.
 Proof. split; reflexivity. Qed.
 
-(* two folders whose members share an output (names a_0, a | a): not disjoint, and the result depends
-   on the schedule: later wins / earlier wins / neither (a mixture) *)
+(* two workers sharing an output (what the names a_0, a | a led to before commit 5112351; no archive leads
+   there any more, see outnames_nodup_thm): not disjoint, and the result depends on the schedule: later wins /
+   earlier wins / neither (a mixture).  Shows that `disjoint` cannot be dropped from schedule_independent_thm *)
 Definition w_collide : list worker :=
   [[ACreate 0; AWrite 0 [65; 65; 65]%Z]; [ACreate 0; AWrite 0 [99]%Z]].
 Theorem collision_race_refuted_thm :
@@ -912,13 +1044,19 @@ Proof.
   intros H. apply (H 0 1 [ACreate 0; AWrite 0 [65; 65; 65]%Z] [ACreate 0; AWrite 0 [99]%Z] 0); simpl; auto.
 Qed.
 
-(* names "a_0", "a", "a": the second "a" is renamed to "a_0", the name of the first member *)
-Theorem outnames_collision_refuted_thm :
-  outnames [[97; 95; 48]; [97]; [97]]%Z = [[97; 95; 48]; [97]; [97; 95; 48]]%Z /\
-  ~ NoDup (outnames [[97; 95; 48]; [97]; [97]]%Z).
+(* names "a_0", "a", "a" (the witness of the collision before commit 5112351): the second "a" now skips a_0 *)
+Example outnames_former_collision :
+  outnames [[97; 95; 48]; [97]; [97]]%Z = [[97; 95; 48]; [97]; [97; 95; 49]]%Z /\
+  outnames [[97]; [97]; [97; 95; 48]; [97]]%Z = [[97]; [97; 95; 48]; [97; 95; 48; 95; 48]; [97; 95; 49]]%Z.
+Proof. split; reflexivity. Qed.
+
+(* every output has one owner => the workers are disjoint (each member id belongs to exactly one folder, and
+   by outnames_nodup_thm different members have different outputs) *)
+Theorem disjoint_of_owner_thm : forall ws (owner : nat -> nat),
+  (forall i w o, nth_error ws i = Some w -> In o (fp w) -> owner o = i) -> disjoint ws.
 Proof.
-  split; [reflexivity|]. intros H. vm_compute in H. inversion H as [|x l Hni Hnd]; subst.
-  apply Hni. right. left. reflexivity.
+  intros ws owner H i j wi wj o Hne Ei Ej Hi Hj.
+  apply Hne. rewrite <- (H i wi o Ei Hi). apply (H j wj o Ej Hj).
 Qed.
 
 (* two damaged folders: which error is raised depends on the schedule (the sequential path raises the first) *)
@@ -937,3 +1075,12 @@ Definition w_objB : list worker :=
 Lemma two_objects_ok : disjoint (w_damaged ++ w_objB) /\
   complete [2; 0; 3; 1; 0; 2; 2; 0; 1; 3] none_map (w_damaged ++ w_objB).
 Proof. split; [apply disjointb_sound; reflexivity | reflexivity]. Qed.
+
+(* schedule independence without a hypothesis on footprints other than: every output has one owner *)
+Theorem schedule_independent_owner_thm : forall o0 ws sched (owner : nat -> nat),
+  (forall i w o, nth_error ws i = Some w -> In o (fp w) -> owner o = i) ->
+  complete sched o0 ws ->
+  forall o, s_out (run sched (init o0 ws)) o = s_out (sequential o0 ws) o.
+Proof.
+  intros o0 ws sched owner H Hfin. apply schedule_independent_thm; auto. eapply disjoint_of_owner_thm; eauto.
+Qed.
